@@ -38,7 +38,7 @@ def run_tests(d):
     q = subprocess.run([PY, '-B', '-m', 'pytest', '-q', '-p', 'no:cacheprovider', 'tests/test_numpy.py'],
                        cwd=d, env=env, capture_output=True, text=True)
     last_np = (q.stdout.strip().splitlines() or ['?'])[-1]
-    ok = p.returncode == 0 and '9 failed' in last_np and '7 passed' in last_np
+    ok = p.returncode == 0 and '9 failed' in last_np and '6 passed' in last_np
     return ok, f"{last} | numpy: {last_np}"
 
 
